@@ -28,6 +28,7 @@ import (
 	"path/filepath"
 	"sort"
 	"strings"
+	"sync"
 	"syscall"
 	"time"
 
@@ -189,7 +190,7 @@ func (e *engine) childSpec(j job) (vlib.ChildSpec, caseSpec) {
 		wrap = []string{e.cfg.BinPlain, stepperArg, "strace.out", roots, mode}
 	}
 	if sp.Target == tDownload {
-		sp.URL = e.srv.url(name, sp.Variant, sp.Seed, sp.NewSize)
+		sp.URL = e.srv.url(name, sp.Variant, sp.Seed, sp.NewSize, sp.ContentID)
 		if sp.Signed {
 			sp.TrustSignet = e.srv.trust
 		}
@@ -295,7 +296,7 @@ func (e *engine) run() {
 
 	// ---- ptrace-driven cases: sweep on beyond pass 1's count until a kill run completes un-killed
 	// (the number of calls of a download varies from run to run; the sweep, not pass 1, bounds it)
-	for round := 0; round < 12; round++ {
+	for round := 0; round < 48; round++ {
 		jobs = nil
 		for _, cs := range states {
 			if cs.judgable && usesStepper(cs.sp) && !cs.extraEnd {
@@ -371,17 +372,117 @@ func (e *engine) run() {
 
 // runJobs executes jobs in parallel children and judges each.
 func (e *engine) runJobs(jobs []job) {
-	specs := make([]vlib.ChildSpec, len(jobs))
-	sps := make([]caseSpec, len(jobs))
-	for i, j := range jobs {
-		specs[i], sps[i] = e.childSpec(j)
+	par := e.cfg.Par
+	if par < 1 {
+		par = 1
 	}
-	vlib.RunChildren(e.cfg, specs, func(i int, r *vlib.ChildResult) {
-		e.judge(jobs[i], sps[i], r)
-		if sps[i].CrossTmp != "" {
-			_ = os.RemoveAll(sps[i].CrossTmp)
+	keep := os.Getenv("C17_KEEP") != ""
+	var mu sync.Mutex // judging is serialised
+	var wg sync.WaitGroup
+	sem := make(chan struct{}, par)
+	for i := range jobs {
+		wg.Add(1)
+		sem <- struct{}{}
+		go func(j job) {
+			defer wg.Done()
+			defer func() { <-sem }()
+			cspec, sp := e.childSpec(j)
+			r := vlib.RunChild(e.cfg, cspec)
+			mu.Lock()
+			fu := e.judge(j, sp, r)
+			mu.Unlock()
+			if fu != nil {
+				// second phase of the crash oracle: a fresh process operates on the tree the killed one left
+				fspec, fsp, fw := e.followSpec(sp, r, fu)
+				r2 := vlib.RunChild(e.cfg, fspec)
+				mu.Lock()
+				e.judgeFollow(j, fsp, fw, r, r2)
+				mu.Unlock()
+				if !keep {
+					_ = os.RemoveAll(r2.Dir)
+				}
+			}
+			if !keep {
+				_ = os.RemoveAll(r.Dir)
+			}
+			if sp.CrossTmp != "" {
+				_ = os.RemoveAll(sp.CrossTmp)
+			}
+		}(jobs[i])
+	}
+	wg.Wait()
+}
+
+// followUp is what a judged kill run hands to the second phase.
+type followUp struct {
+	w  *world       // the killed run's world
+	st *stateReport // what the destination was right after the kill
+}
+
+const followSize = contentHeader + 17 // the follow-up content is short: a reused stale temp file would show its tail
+
+// followSpec describes the follow-up operation on a killed run's left-over tree: the same
+// target once more, no fault, for the single-file targets with a new, shorter content.
+func (e *engine) followSpec(sp caseSpec, r *vlib.ChildResult, fu *followUp) (vlib.ChildSpec, caseSpec, *world) {
+	fsp := sp
+	fsp.Phase, fsp.FollowDir = "follow", r.Dir
+	switch sp.Target {
+	case tWriteFile, tCreate, tCopy, tReplace, tFstree, tDownload:
+		fsp.ContentID, fsp.NewSize = 3, followSize
+	}
+	name := r.Name + "-f"
+	if sp.Target == tDownload {
+		fsp.Variant = "complete"
+		fsp.URL = e.srv.url(name, "complete", fsp.Seed, fsp.NewSize, fsp.ContentID)
+	}
+	fw := e.worldOf(fsp, r.Dir)
+	// the follow-up's "old" state is what the kill left
+	fw.old, fw.oldLink = nil, ""
+	switch fu.st.Dest {
+	case "old":
+		fw.old, fw.oldLink = fu.w.old, fu.w.oldLink
+	case "new":
+		if fu.w.destKind == "symlink" {
+			fw.oldLink = fu.w.newLink
+		} else {
+			fw.old = fu.w.new
 		}
-	})
+	}
+	return vlib.ChildSpec{Name: name, Bin: e.cfg.BinPlain, Spec: fsp, Timeout: 4 * time.Minute, Env: []string{"TMPDIR=" + fw.tmp}}, fsp, fw
+}
+
+// judgeFollow: after the follow-up operation the destination is exactly the follow-up's
+// content (or, if it failed, still what the kill left), and the leftovers predicate holds.
+func (e *engine) judgeFollow(j job, fsp caseSpec, fw *world, r, r2 *vlib.ChildResult) {
+	rep := e.rep
+	rep.Eval(1)
+	rep.Count("followup_runs", 1)
+	if r2.TimedOut || !r2.Done || r2.Out == nil {
+		rep.Inconclusive("%s: follow-up operation after the kill before %s did not complete (exit=%d signal=%q): %s", fsp.label(), j.inj.Point.What, r2.Exit, r2.Signal, r2.StderrTail(400))
+		return
+	}
+	var res opResult
+	_ = json.Unmarshal(r2.Out, &res)
+	st, err := fw.inspect()
+	if err != nil {
+		rep.Inconclusive("%s: cannot inspect the sandbox after the follow-up operation: %v", fsp.label(), err)
+		return
+	}
+	fw.judgeReturn(st, res, false)
+	for _, f := range st.Findings {
+		sig := fmt.Sprintf("C17:%s:%s:after-crash:%s", f.Kind, fsp.Target, f.Role)
+		rep.Violation(sig, fmt.Sprintf("%s: a process was killed immediately before %s; the same operation run again afterwards (content of %d bytes, no fault, returned %q): %s",
+			fsp.Target, j.inj.Point.What, len(fw.new), res.Err, f.Text),
+			map[string]any{"spec": j.cs.sp, "inject": j.inj, "follow_up_spec": fsp, "finding": f, "state_after_follow_up": st, "op_result": res,
+				"killed_run_trace_tail": traceExcerpt(r.Dir, 40)})
+	}
+	if res.Err != "" {
+		rep.Count("followup_op_failed", 1)
+		rep.Note("%s: the follow-up operation after the kill before %s failed: %s", fsp.label(), j.inj.Point.What, res.Err)
+		return
+	}
+	rep.Count("followup_state_"+st.Dest, 1)
+	rep.Distinct(fmt.Sprintf("%s|follow|%d", j.cs.sp.sig(), j.inj.Point.Index))
 }
 
 func traceExcerpt(dir string, n int) []string {
@@ -436,7 +537,7 @@ func (e *engine) violation(sp caseSpec, inj *inject, hit *sysEvent, f finding, w
 }
 
 // judge evaluates one finished child.
-func (e *engine) judge(j job, sp caseSpec, r *vlib.ChildResult) {
+func (e *engine) judge(j job, sp caseSpec, r *vlib.ChildResult) (fu *followUp) {
 	rep := e.rep
 	cs := j.cs
 	if r.TimedOut {
@@ -579,6 +680,9 @@ func (e *engine) judge(j job, sp caseSpec, r *vlib.ChildResult) {
 		for _, f := range st.Findings {
 			e.violation(sp, inj, hit, f, w, st, nil, r.Dir)
 		}
+		if len(st.Findings) == 0 && !w.expectErr {
+			fu = &followUp{w: w, st: st} // second phase: operate on what this kill left behind
+		}
 		if idx < 0 {
 			// killed, but not at a crash point of the plan: the state predicate was still evaluated
 			rep.Count("kills_off_plan", 1)
@@ -654,6 +758,7 @@ func (e *engine) judge(j job, sp caseSpec, r *vlib.ChildResult) {
 		rep.Distinct(fmt.Sprintf("%s|err|%s|%s", sp.sig(), key, hit.Name))
 		rep.Seen("errors_injected_into", hit.Name+":"+inj.Errno)
 	}
+	return nil
 }
 
 // judgeSecond evaluates a second-order run: an error went into call e and the process
@@ -730,7 +835,7 @@ func (e *engine) runReaders() {
 			name += "-newdir"
 		}
 		if sp.Target == tDownload {
-			sp.URL = e.srv.url(name, "complete", sp.Seed, sp.NewSize)
+			sp.URL = e.srv.url(name, "complete", sp.Seed, sp.NewSize, 0)
 			// every resource of the scenario has its own seed; the server derives the content from the URL,
 			// so the scenario uses one URL per resource (see readerWorlds)
 		}
